@@ -639,7 +639,7 @@ func Run(c *hx.Ctx) {
 		c.Note(fmt.Sprintf("%s: N=%d C=%d peers=%v table=%v -> %s", p.Kind, p.N, p.C, p.Peers, p.Pos, describe(&out)))
 	}
 	// 4. generated selections with Coq cases
-	nCases := c.N(450, 6000)
+	nCases := c.N(350, 6000)
 	for i := 0; i < nCases; i++ {
 		var in *selInput
 		if c.Intn(6) == 0 {
@@ -677,7 +677,7 @@ func Run(c *hx.Ctx) {
 		one(c, genValid(c), false)
 	}
 	// 7. calcParticipant
-	for i := 0; i < c.N(200, 2500); i++ {
+	for i := 0; i < c.N(150, 2500); i++ {
 		onePart(c, genPart(c), true)
 	}
 	for k := uint32(0); k < 520; k++ { // every k once, oracle only
